@@ -247,6 +247,18 @@ def gen_values(sort_src, rng, p_hint, budget):
                 M = np.zeros((3, 3), dtype=dt)
                 M[0, 1], M[0, 2], M[1, 2] = w
                 out.append(M[list(perm), :][:, list(perm)])
+        # long thin graphs (depth matters for reachability / closure algorithms): relabelled chains and chains with a chord, p = 6, 7, 9
+        for p in (6, 7, 9):
+            for rep in range(2):
+                M = np.zeros((p, p), dtype=dt)
+                for i in range(p - 1):
+                    M[i, i + 1] = 1 if (dt is int or rep == 0) else rng.choice((1, -1, 0.5, 2))
+                if rep == 1:
+                    M[0, p - 1] = 1
+                perm = list(range(p))
+                if rep == 1:
+                    rng.shuffle(perm)
+                out.append(M[perm, :][:, perm])
         # p = 4: seeded sample of signed DAG weightings (weights +-1, 1/2, 2) and of binary PDAGs
         for _ in range(budget):
             p = 4
